@@ -5,7 +5,7 @@ import ast
 
 import z3
 
-from .ctx import Unsupported
+from .ctx import Infeasible, Unsupported
 from .sym import *  # noqa: F401,F403
 from .types import *  # noqa: F401,F403
 from .interp import (
@@ -722,6 +722,15 @@ def symbolic_comprehension(I, e, frame, sub, kind, it):
         src = it.t
         ety = it.ty.elem
         is_filter = isinstance(e.elt, ast.Name) and e.elt.id == g.target.id
+        if is_filter and getattr(I, "forget_order_facts", False):
+            # over-approximation requested by the target: some subsequence-sized sequence
+            jw = c.fresh(f"comp_w_{e.lineno}", IntS)
+            I.assign(g.target, wrap(ety, src[jw]), sub)
+            for cond in g.ifs:
+                pure_truth(I, cond, sub)  # the conditions must still be evaluable (pure)
+            res = c.fresh(f"comp_{e.lineno}", it.ty.sort())
+            c.assume(z3.Length(res) <= z3.Length(src))
+            return ZVal(TSeq(ety), Cell(res))
         if is_filter:
             x = z3.Const(f"comp_x_{e.lineno}", ety.sort())
             I.assign(g.target, wrap(ety, x), sub)
@@ -751,7 +760,49 @@ def symbolic_comprehension(I, e, frame, sub, kind, it):
             c.assume(z3.Length(res) == z3.Length(src))
             c.assume(z3.ForAll([j], z3.Implies(z3.And(j >= 0, j < z3.Length(src)), res[j] == unwrap(rty, val))))
             return ZVal(TSeq(rty), Cell(res))
+    if kind in ("list", "gen") and isinstance(it, ZVal) and isinstance(it.ty, TSeq) and isinstance(g.target, ast.Name):
+        return witness_comprehension(I, e, frame, sub, it)
     raise Unsupported(f"comprehension over symbolic collection at line {e.lineno}")
+
+
+def witness_comprehension(I, e, frame, sub, it):
+    """[f(x) for x in seq if p(x)] with an element expression that reads the heap: the element
+    expression is executed once for an ARBITRARY element that passes the filter (so every exception it
+    can raise for some element is explored), and the result is an arbitrary sequence of the element
+    type whose length is bounded by the source's -- an over-approximation that keeps no pointwise
+    facts.  The expression must be effect-free (names, attributes, subscripts, calls of .get)."""
+    c = I.ctx
+    g = e.generators[0]
+    for n in ast.walk(e.elt):
+        if isinstance(n, ast.Call) and not (isinstance(n.func, ast.Attribute) and n.func.attr == "get"):
+            raise Unsupported(f"comprehension over symbolic collection at line {e.lineno}: element expression calls a function")
+        if isinstance(n, (ast.NamedExpr, ast.Await, ast.Yield, ast.YieldFrom)):
+            raise Unsupported(f"comprehension at line {e.lineno}: element expression has effects")
+    src = it.t
+    ety = it.ty.elem
+    j = c.fresh(f"comp_w_{e.lineno}", IntS)
+    I.assign(g.target, wrap(ety, src[j]), sub)
+    cj = z3.And([pure_truth(I, cond, sub) for cond in g.ifs] + [z3.BoolVal(True)])
+    rng = z3.And(j >= 0, j < z3.Length(src))
+    if c.choose(2, "comprehension-witness") == 0:
+        # no element passes the filter (the fact itself is not kept: over-approximation)
+        if not g.ifs:
+            c.assume(z3.Length(src) == 0)
+            if not c.is_sat():
+                raise Infeasible()
+        return SList([])
+    c.assume(z3.And(rng, cj))
+    if not c.is_sat():
+        raise Infeasible()
+    val = I.eval(e.elt, sub)
+    rty = ty_of_value(val)
+    if not rty.pure:
+        raise Unsupported(f"comprehension at line {e.lineno}: impure element type")
+    res = c.fresh(f"comp_{e.lineno}", z3.SeqSort(rty.sort()))
+    c.assume(z3.And(z3.Length(res) >= 1, z3.Length(res) <= z3.Length(src)))
+    if not g.ifs:
+        c.assume(z3.Length(res) == z3.Length(src))
+    return ZVal(TSeq(rty), Cell(res))
 
 
 def codec_comprehension(I, e, frame, sub, kind, it):
